@@ -80,6 +80,8 @@ def gen_case(rng, fam):
                           'svc': g._svc(), 'ret': rng.choice(['coro', 'future'])})
         else:
             nodes.append({'id': 'n1', 'op': 'source', 'ups': []})
+            if rng.random() < 0.1:
+                n = 0            # legal boundary: every unmatched element holds its producer back
             k = rng.choice([2, 2, 3])
             if k == 3:
                 nodes.append({'id': 'n1b', 'op': 'source', 'ups': []})
@@ -207,8 +209,10 @@ def check_async(case, counters, sets):
                                 'elements at t=%s' % (n, w, a - outs, e[1]))
                 if k not in ('IN', 'PENDING', 'ACCEPTED', 'OUT'):
                     continue
-                if k != 'PENDING':
-                    chk()           # state after the previous event (an IN not followed by PENDING was accepted)
+                if k not in ('PENDING', 'OUT'):
+                    # state after the previous event: an IN followed neither by PENDING (held back) nor by OUT
+                    # (matched within the same call) was accepted and is waiting for a partner
+                    chk()
                 if k == 'IN':
                     acc[e[4]] = acc.get(e[4], 0) + 1
                     last_in_who = e[4]
